@@ -7,8 +7,9 @@ ALL = ["C%02d" % i for i in range(1, 21)]
 CHECKS = {
  "C04": dict(
    category="model_checking",
-   text="TLC checks the shipped 3-value/2-operator evaluator model against the precedence-climbing "
-        "reference on every enumerated token string (8-bit words, ~10^5 strings / 10^6 states), then "
+   text="TLC checks the model of the shipped evaluator (value stack, waiting operators reduced before a looser-or-equal "
+        "one is pushed; until the repair 545f582 the 3-value/2-operator machine with a named deviation) against the "
+        "precedence-climbing reference on every enumerated token string (8-bit words, 3.5x10^5 strings in quick), then "
         "every TLC-generated expression (operator orderings, parentheses, unary chains, literal "
         "spellings, expressions without a value) is assembled by the real code as `.dc64 <expr>` and "
         "the recorded bytes/rejections are classified by TLC against reference and machine.",
@@ -28,7 +29,8 @@ CHECKS = {
         "addresses against Denote.",
    design_ref="DESIGN.md 4 C05",
    note="Trusted: renderer nv/asmtext.py, image reader in harness/m_asm.cpp. Addresses below 2^31; "
-        ".binfile is exercised through the CLI in C09/C13, not here.",
+        ".binfile is a statement of the model (bin: a file named by its content under .build/binfiles); overlays "
+        "(GenAsmData!OverlayProgs) and a marker byte behind the last statement of the translation pairs were added in the fourth session.",
    technique="TLA+ denotational spec of the directives; TLC BFS + simulation generate programs; "
              "replayed into the real two-pass assembler; TLC trace acceptor compares image/symbols"),
  "C10": dict(
